@@ -241,7 +241,7 @@ class ExplicitStateGraph:
         for state in states:
             node = self.states_to_nodes[state]
             self.update_ancestors_of(node=node, ancestors=ancestors)
-        ancestor_list = list(ancestors.values())
+        ancestor_list = sorted(ancestors.values(), key=lambda n: n.visitorder)
         self.dynamic_programming(ancestor_list)
         return ancestors
 
@@ -269,7 +269,7 @@ class ExplicitStateGraph:
 
     def dynamic_programming(self, nodes):
         """Perform dynamic programming updates over a set of nodes"""
-        dp_action_order = list(set.union(*[set(n.action_order) for n in nodes]))
+        dp_action_order = list(dict.fromkeys(a for n in nodes for a in n.action_order))
         tf, rf, am = self._state_nodes_to_matrices(nodes, dp_action_order)
         pi, v, q = self._policy_iteration(tf, rf, am)
 
